@@ -107,3 +107,33 @@ pub fn diff(a: &[(String, String)], b: &[(String, String)]) -> Option<String> {
     }
     None
 }
+
+/// What the sync gate would answer: the stored announced headers (hook) and, with the gate
+/// switched on for the duration of the probe, one call of each gated query endpoint.
+pub fn gate_probe(h: &Hist) -> Vec<(String, String)> {
+    use ic_btc_interface::{Flag, SetConfigRequest};
+    let mut v: Vec<(String, String)> = vec![];
+    let mut ann: Vec<String> = world::bookkeeping().next_by_hash.iter().map(|(b, height, _)| format!("{}@{}", hex::encode(&b.to_vec()[..6]), height)).collect();
+    ann.sort();
+    v.push(("announced_headers".into(), ann.join(",")));
+    let was = match world::get_config() {
+        Out::Ok(c) => c.disable_api_if_not_fully_synced,
+        _ => return v,
+    };
+    let _ = world::set_config(SetConfigRequest { disable_api_if_not_fully_synced: Some(Flag::Enabled), ..Default::default() });
+    let net = h.net();
+    if let Some(a) = h.uni.addrs.first() {
+        v.push(("gated.get_balance_query".into(), format!("{:?}", world::get_balance_query(&a.text, net, None))));
+        let r = world::get_utxos_query(&a.text, net, &Filter::None);
+        v.push(("gated.get_utxos_query".into(), match r {
+            Out::Trap(m) => format!("TRAP {}", m),
+            Out::Ok(x) => format!("{:?}", x.map(|y| (y.tip_height, y.utxos.len()))),
+        }));
+    }
+    v.push(("gated.get_block_headers".into(), match world::get_block_headers(0, None, net) {
+        Out::Trap(m) => format!("TRAP {}", m),
+        Out::Ok(x) => format!("{:?}", x.map(|y| (y.tip_height, y.block_headers.len()))),
+    }));
+    let _ = world::set_config(SetConfigRequest { disable_api_if_not_fully_synced: Some(was), ..Default::default() });
+    v
+}
